@@ -1406,12 +1406,12 @@ package larking
 // The unary proxy body: the backend is invoked for the proxied method's own name with the
 // caller's metadata, request and reply are the ones handed in and out, an error is passed on.
 //@ func createConnHandler$3 serves C10 partial ghost count post
-//@   returns (res, err)
+//@   returns (res, rerr)
 //@   count outctx `metadata.NewOutgoingContext(ctx, md)`
 //@   assert atcall `cc.Invoke(` [backend-call-is-the-proxied-method C10] arg2 == method && same(arg3, args) && pay(arg4) == reply
 //@   assert atcall `cc.Invoke(` [request-metadata-is-forwarded C10] ok ==> outctx == 1
-//@   ensures [backend-error-is-passed-on C10] at "return nil, err" err != nil
-//@   ensures [reply-is-the-backends C10] at "return reply, nil" pay(res) == reply && err == nil
+//@   ensures [backend-error-is-passed-on C10] at "return nil, err" rerr != nil
+//@   ensures [reply-is-the-backends C10] at "return reply, nil" pay(res) == reply && rerr == nil
 //@ func createConnHandler$1$1 serves C10 partial ghost count post inv.init inv.keep
 //@   count closes `clientStream.CloseSend(`
 //@   ensures [client-half-close-reaches-the-backend C10] inErr == io.EOF ==> closes == 1
